@@ -1,7 +1,7 @@
 SPECIFICATION Spec
 CONSTANTS
   MapDefs <- MCMapDefs
-  FlagSet <- MCFlagsAll
+  FlagSet <- MCFlagsQuick
   Boxes <- MCBoxes
   Confs <- MCConfs
   Bases <- MCBases
